@@ -17,8 +17,13 @@ import (
 // implementation constant (validated against the maximum observed on the unchanged tree,
 // which the evidence reports as max_observed_over_budget).
 func faultLimits(n int) (comp.Limits, int) {
-	return comp.Limits{Ticks: 20000 * int64(n+256), Depth: 4*n + 256}, 20000 * (n + 256)
+	return comp.Limits{Ticks: tickFactor * int64(n+256), Depth: 4*n + 256}, 20000 * (n + 256)
 }
+
+// tickFactor is the per-byte tick budget. Minimisation of a hang lowers it temporarily
+// (every candidate that still hangs costs the whole budget); the minimised input is
+// re-confirmed under the full budget.
+var tickFactor int64 = 20000
 
 type FaultReplay struct {
 	Kind     string        `json:"kind"`
@@ -77,6 +82,12 @@ func unaryOracle(input string, res *comp.Result) (string, string) {
 var soupVocab = []string{"script", "text", "movement", "mart", "mapscripts", "raw", "const", "format", "var", "flag", "defeated", "TRUE", "false", "if", "else", "elif", "do", "while",
 	"break", "continue", "switch", "case", "default", "global", "local", "poryswitch", "value", "moves", "(", ")", "{", "}", "[", "]", ",", ":", "=", "==", "!=", "<", ">", "<=", ">=", "&&", "||", "!", "*",
 	"Foo", "BAR_1", "_", "0", "12", "-3", "0x1F", "9999", "10000", "\"str\"", "ascii\"s\"", "`raw`", "\"unterminated", "`unterminated", "&", "|", "@", "$", "end", "return", "goto", "av0", "msgbox", "é", "ポ", "\ufeff"}
+
+// unicodeZoo: runes of many general categories (letters, marks, decimal digits of other
+// scripts, letter/other numbers, punctuation, symbols, separators, format characters,
+// private use, non-characters, astral planes). All valid UTF-8.
+var unicodeZoo = []string{"\u0663", "\uff13", "\u0967", "\u2167", "\u00b2", "\u00bd", "\u3007", "\u0300", "\u20dd", "\u00a0", "\u2028", "\u2029", "\u3000", "\u200d", "\u00ad", "\u061c",
+	"\u00ab", "\u2014", "\u2026", "\u00d7", "\u20ac", "\u2190", "\ue000", "\ufdd0", "\uffff", "\U0001f600", "\U00020000", "\U0010ffff", "\u0130", "\u00df", "\u01c5", "\u02b0", "\u05d0", "\u4e2d", "\u0e01", "\u1100", "_", "\u203f", "\u0085", "\u001b", "\u007f"}
 
 var insertRunes = []string{"\x00", "\ufffd", "\ufeff", "\r", "é", "ポケ", "\u0301", "\u200b", "\t", "\"", "`", "#", "//", "\\", "{", "}", "(", ")"}
 
@@ -219,6 +230,11 @@ func faultMinimize(oracle string, rp *FaultReplay) *FaultReplay {
 		return or == oracle
 	}
 	budget := 1500
+	if oracle == "hang" || oracle == "runaway-recursion" {
+		budget = 120
+		tickFactor = 1000
+		defer func() { tickFactor = 20000 }()
+	}
 	in := best.Input
 	for chunk := len(in) / 2; chunk >= 1 && budget > 0; chunk /= 2 {
 		for i := 0; i+chunk <= len(in) && budget > 0; {
@@ -229,6 +245,13 @@ func faultMinimize(oracle string, rp *FaultReplay) *FaultReplay {
 			} else {
 				i += chunk
 			}
+		}
+	}
+	if tickFactor != 20000 {
+		// re-confirm under the full budget; otherwise keep the original input
+		tickFactor = 20000
+		if !fails(in) {
+			in = best.Input
 		}
 	}
 	if best.Input2 == best.Input {
@@ -424,11 +447,17 @@ func (fr *faultRun) exec() {
 				case 3:
 					kind = "S6_token_replaced"
 					w := soupVocab[fr2.Intn(len(soupVocab))]
+					if fr2.P(0.15) {
+						w = unicodeZoo[fr2.Intn(len(unicodeZoo))]
+					}
 					desc += fmt.Sprintf("token %d %q replaced by %q; ", k, tt[k], w)
 					tt[k] = w
 				default:
 					kind = "S7_token_inserted"
 					w := soupVocab[fr2.Intn(len(soupVocab))]
+					if fr2.P(0.15) {
+						w = unicodeZoo[fr2.Intn(len(unicodeZoo))]
+					}
 					desc += fmt.Sprintf("%q inserted before token %d; ", w, k)
 					tt = append(tt[:k:k], append([]string{w}, tt[k:]...)...)
 				}
@@ -444,6 +473,20 @@ func (fr *faultRun) exec() {
 			pos--
 		}
 		ins := insertRunes[fr2.Intn(len(insertRunes))]
+		switch fr2.Intn(3) {
+		case 0:
+			ins = unicodeZoo[fr2.Intn(len(unicodeZoo))]
+		case 1:
+			// a random valid code point
+			for {
+				c := rune(0x80 + fr2.Intn(0x2ff80))
+				if c >= 0xd800 && c <= 0xdfff {
+					continue
+				}
+				ins = string(c)
+				break
+			}
+		}
 		m := mode()
 		fr.observe("S8_rune_inserted", fmt.Sprintf("%q inserted at byte %d", ins, pos), input0[:pos]+ins+input0[pos:], m, healthyDisk(f), bkOf(m))
 	}
@@ -452,7 +495,11 @@ func (fr *faultRun) exec() {
 		k := fr2.Range(1, 40)
 		var tt []string
 		for j := 0; j < k; j++ {
-			tt = append(tt, soupVocab[fr2.Intn(len(soupVocab))])
+			if fr2.P(0.1) {
+				tt = append(tt, unicodeZoo[fr2.Intn(len(unicodeZoo))])
+			} else {
+				tt = append(tt, soupVocab[fr2.Intn(len(soupVocab))])
+			}
 		}
 		m := mode()
 		fr.observe("S9_token_soup", "random token sequence", strings.Join(tt, " "), m, healthyDisk(f), "")
